@@ -347,7 +347,12 @@ CLAIMS["C05"] = dict(
          "positive-rate event in event order, scale 1/rate_i at the CURRENT state and time, fired event = owner of the first minimum, time advanced by it). The property itself is decided by a "
          "Lean-independent end-to-end oracle on many real runs: multinomial occupancy at time t of independent individual-level progression chains (1-2 families, 2-4 compartments, skip/back/competing "
          "edges; reference row of expm(Q t) at 40 digits), SIR final size (exact rational pmf, Python recursion cross-checked exactly against the Lean driver), and the law of rexp; every cell is "
-         "judged by an exact binomial acceptance region, Bonferroni-split so that the total false-alarm probability of a run of the check is < 1e-8.",
+         "judged by an exact binomial acceptance region, Bonferroni-split so that the total false-alarm probability of a run of the check is < 1e-8. "
+         "Histories and forms: half of the statistical cases are sessions (the instance is first simulated with other parameter values / initial values / by tau-leap with a left-over pre_tau / on another "
+         "grid / with a dict of distributions then replaced by plain numbers / integrated / deep-copied, a sibling instance with the same names simulates between the chunks; the target values are assigned "
+         "as dict / list / array / pairs / partial dicts) and the batch simulated AFTERWARDS is judged against the law of the values in force; x0 / t0 / horizon in every accepted container and dtype; kept "
+         "chunks re-compared; the replay cases are sessions of the shared engine, their clocks aligned with the rates of a fresh instance with the parameters in force; a few cases go through "
+         "solve_stochast(parallel=True) (dask's synchronous scheduler, seed=True per replicate) and are judged by the same laws plus 'no two replicates coincide'; rexp(seed=True) must return fresh variates with the Exp law.",
     note="ASSUMED: numpy's standard_exponential yields independent Exp(1) variates and floats are treated as reals (firstMin_cast: the model's choice on rational draws is the choice on the same numbers as reals). "
          "NOT formalised: the composition of one-step laws into the law of whole paths (strong Markov property / construction of the chain from jump chain and holding times); that composition is exactly what the "
          "end-to-end statistics test on the real code. The multinomial occupancy reference is computed in Python (mpmath.expm), not in Lean. Rates are autonomous (with time-dependent rates the first-reaction "
@@ -382,7 +387,13 @@ CLAIMS["C16"] = dict(
          "final state. The property itself is decided on the real outputs by a Lean-independent oracle: same seed => bitwise identical states, times, counts, "
          "Y, Y_all (fresh model, same model again, seed;A;B sequences, after a different earlier run + re-seed, full_output both ways, exact / adaptive tau / "
          "fixed tau with rejected leaps, raw and gridded, n = 1..6, both random-parameter forms incl. dict arguments, partial and mixed dicts); different seeds "
-         "=> different outputs; Y == exact rational mean(Y_all) to 1e-12.",
+         "=> different outputs; Y == exact rational mean(Y_all) to 1e-12. Histories (the property quantifies over them): the record _stochasticParam is modelled as part of the object, written by the "
+         "setter only (Seed.setParams, tied to BaseOdeModel.parameters by driver op seed_setter): setter_all_clears, setter_random_dict_records, setter_number_dict(_covering), run_keeps_record, "
+         "history_irrelevant_cleared (after plain numbers for all parameters the object is the same whatever it held; no parameter request, runs with exactly those numbers), history_irrelevant_session (same record + same "
+         "values outside it => same outputs from the same stream), stale_record_redraws_counterexample (the setter before fix cc23e1d). On the real code 'seed; target call' is made after histories that end in the target "
+         "configuration (other initial values / parameters / tau configuration / distributions <-> numbers / other grids, iteration counts, entry points / integrate on another grid / stochastic run / sibling instance / "
+         "deepcopy), with x0, t0, horizon, grid, n in every accepted container and dtype, against the harness's own copies of earlier results, all results re-compared at the end; the shared session engine's "
+         "'a repeated call / a fresh instance reproduces a call' is judged as a violation here.",
     note="Runtime, not proved: that two different numpy seeds give streams whose first consumed draws differ (checked only where the recorded run makes a "
          "coincidence less likely than 1e-12: raw output, >= 20 events, a continuous waiting time in the output or prod Poisson pmf < 1e-12; random-parameter "
          "runs whose integrations depend on the draws); numpy's generator being a deterministic function of its state; scipy's integrator being deterministic "
